@@ -2,8 +2,26 @@ import PlaybackModel.MetaFilter
 /-! Helper lemmas for C14 (metadata filter matching). -/
 namespace PlaybackModel.MetaFilter
 
-theorem operatorFilter_total (op r v : MVal) : ∃ b, operatorFilter op r v = .ok b := by
+/-- the comparisons of `_operator_filter` sit in `try … except TypeError` in the source as it stands (F8): a comparison that
+cannot be made is "no match".  Stops checking when the guard disappears. -/
+theorem operatorFilter_eq (op r v : MVal) :
+    operatorFilter op r v = (match operatorCmp op r v with
+      | .ok b => .ok b
+      | .error .typeError => .ok false) := by
   unfold operatorFilter
+  rw [if_pos (by rfl : PlaybackModel.Source.operatorCatchesTypeError = true)]
+  cases operatorCmp op r v with
+  | ok b => rfl
+  | error e => cases e; rfl
+
+/-- the pattern branch of `_match_metadata_value` tests `isinstance(recorded_value, str)` first in the source as it stands (F8) -/
+theorem patternMatch_eq (glob : String → String → Bool) (p : String) (r : MVal) :
+    patternMatch glob p r = patternMatchGuarded glob p r := by
+  unfold patternMatch
+  rw [if_pos (by rfl : PlaybackModel.Source.patternGuardsNonString = true)]
+
+theorem operatorFilter_total (op r v : MVal) : ∃ b, operatorFilter op r v = .ok b := by
+  rw [operatorFilter_eq]
   cases h : operatorCmp op r v with
   | ok b => exact ⟨b, rfl⟩
   | error e => cases e; exact ⟨false, rfl⟩
@@ -13,6 +31,7 @@ theorem atomMatch_total (f r : MVal) : ∃ b, atomMatch f r = .ok b := by
 
 theorem patternMatch_total (glob : String → String → Bool) (p : String) (r : MVal) :
     ∃ b, patternMatch glob p r = .ok b := by
+  rw [patternMatch_eq]
   cases r <;> exact ⟨_, rfl⟩
 
 mutual
